@@ -19,12 +19,13 @@ pub const P_CAN: u8 = 2;
 pub const P_MUNIIC: u8 = 3;
 pub const P_REWRITE: u8 = 4;
 pub const P_FILETRANSFER_KEEP: u8 = 5;
+pub const P_FILETRANSFER_DROP: u8 = 6;
 
 /// message shapes that hit the plugins (selected by `special`), everything else is plain traffic
 #[derive(Clone, Debug, Serialize, Deserialize)]
 pub struct PMsg {
     pub t: TMsg,
-    /// 0 plain, 1 non-verbose frame of the FIBEX, 2 SOME/IP, 3 CAN, 4 Muniic, 5 rewrite target
+    /// 0 plain, 1 non-verbose frame of the FIBEX, 2 SOME/IP, 3 CAN, 4 Muniic, 5 rewrite target, 6 file transfer (FLST/FLDA/FLFI and near misses)
     pub special: u8,
     pub variant: u32,
 }
@@ -50,6 +51,13 @@ fn arg_u32(p: &mut Vec<u8>, v: u32) {
 fn arg_u8(p: &mut Vec<u8>, v: u8) {
     put32(p, 0x41);
     p.push(v);
+}
+fn arg_stra(p: &mut Vec<u8>, s: &str) {
+    // ASCII coded string
+    put32(p, 0x200);
+    p.extend_from_slice(&((s.len() + 1) as u16).to_le_bytes());
+    p.extend_from_slice(s.as_bytes());
+    p.push(0);
 }
 fn arg_str(p: &mut Vec<u8>, s: &str) {
     put32(p, 0x8200);
@@ -145,6 +153,50 @@ pub fn build(m: &PMsg, index: u32) -> DltMessage {
             d.payload = p;
             d.extended_header = ext(0x01 | (4 << 4), 1, b"SYS\0", if v % 6 == 0 { b"XXXX" } else { b"JOUR" });
         }
+        6 => {
+            let mut p = vec![];
+            let serial = (v / 4) % 3;
+            let noar;
+            match v % 4 {
+                0 => {
+                    // data package
+                    arg_stra(&mut p, "FLDA");
+                    arg_u32(&mut p, serial);
+                    arg_u32(&mut p, (v / 16) % 4 + 1);
+                    arg_raw(&mut p, &vec![(v % 251) as u8; ((v / 64) % 40) as usize]);
+                    arg_stra(&mut p, "FLDA");
+                    noar = 5;
+                }
+                1 => {
+                    arg_stra(&mut p, "FLST");
+                    arg_u32(&mut p, serial);
+                    arg_stra(&mut p, "file.bin");
+                    arg_u32(&mut p, (v / 64) % 200);
+                    arg_stra(&mut p, "date");
+                    arg_u32(&mut p, (v / 16) % 5);
+                    arg_u32(&mut p, 40);
+                    arg_stra(&mut p, "FLST");
+                    noar = 8;
+                }
+                2 => {
+                    arg_stra(&mut p, "FLFI");
+                    arg_u32(&mut p, serial);
+                    arg_stra(&mut p, "FLFI");
+                    noar = 3;
+                }
+                _ => {
+                    // near miss: five arguments but not a data package
+                    arg_stra(&mut p, "FLDA");
+                    arg_u32(&mut p, serial);
+                    arg_u32(&mut p, 1);
+                    arg_raw(&mut p, &[1, 2, 3]);
+                    arg_stra(&mut p, if v % 8 == 3 { "FLDB" } else { "FLD" });
+                    noar = 5;
+                }
+            }
+            d.payload = p;
+            d.extended_header = ext(0x01 | (4 << 4), noar, b"SYS\0", b"FILE");
+        }
         _ => {}
     }
     d.standard_header.len = (4 + 4 + if d.standard_header.has_timestamp() { 4 } else { 0 } + if d.extended_header.is_some() { 10 } else { 0 } + d.payload.len()) as u16;
@@ -163,6 +215,7 @@ pub fn plugin_cfg(p: u8) -> String {
         P_CAN => r#"{"name":"CAN","enabled":true,"fibexDir":"/repo/tests"}"#.to_string(),
         P_MUNIIC => r#"{"name":"Muniic","enabled":true,"jsonDir":"/repo/tests/muniic"}"#.to_string(),
         P_REWRITE => crate::plug::rewrite_cfg(),
+        P_FILETRANSFER_DROP => crate::plug::file_transfer_cfg(false),
         _ => crate::plug::file_transfer_cfg(true),
     }
 }
@@ -188,6 +241,7 @@ fn run_plugins(msgs: &[PMsg], plugins: &[u8], sched: &SchedCfg, ctx: &mut Ctx) -
             3 => ctx.probe("traffic_can"),
             4 => ctx.probe("traffic_muniic"),
             5 => ctx.probe("traffic_rewrite_target"),
+            6 => ctx.probe("traffic_file_transfer"),
             _ => {}
         }
     }
@@ -223,8 +277,16 @@ fn run_plugins(msgs: &[PMsg], plugins: &[u8], sched: &SchedCfg, ctx: &mut Ctx) -
     if !ok {
         viol!("plugin-stage-error", "stage returned an error although the consumer stayed");
     }
+    // only file-transfer data packages may be dropped, and only when the plugin is configured so
+    let drop_flda = plugins.contains(&P_FILETRANSFER_DROP);
+    let droppable = |m: &DltMessage| drop_flda && m.is_verbose() && m.noar() == 5 && m.mstp() == adlt::dlt::DltMessageType::Log(adlt::dlt::DltMessageLogType::Info) && adlt::plugins::file_transfer::FileTransferPlugin::is_type(m, "FLDA");
+    let n_in = input.len();
+    let (input, msgs): (Vec<DltMessage>, Vec<PMsg>) = input.into_iter().zip(msgs.iter().cloned()).filter(|(m, _)| !droppable(m)).unzip();
+    let msgs = &msgs[..];
+    ctx.probe_n("flda_packages_dropped_as_configured", (n_in - input.len()) as u64);
     if got.len() != input.len() {
-        viol!("plugin-stage-count", "{} messages in, {} out (plugins {:?})", input.len(), got.len(), plugins);
+        let first = input.iter().zip(got.iter()).position(|(a, b)| a.index != b.index).unwrap_or(std::cmp::min(input.len(), got.len()));
+        viol!("plugin-stage-count", "{} messages in, {} expected out ({} data packages dropped as configured), {} out; first difference at output position {} (plugins {:?})", n_in, input.len(), n_in - input.len(), got.len(), first, plugins);
     }
     let rewrite = plugins.contains(&P_REWRITE);
     let mut text_changed = 0;
@@ -422,12 +484,12 @@ impl Check for C19 {
             let msgs: Vec<PMsg> = trace
                 .into_iter()
                 .map(|t| {
-                    let special = if sp.chance(1, 2) { 0 } else { 1 + sp.below(5) as u8 };
+                    let special = if sp.chance(1, 2) { 0 } else { 1 + sp.below(6) as u8 };
                     PMsg { t, special, variant: sp.u32() }
                 })
                 .collect();
             // all subsets and orders
-            let mut all = vec![P_NONVERBOSE, P_SOMEIP, P_CAN, P_MUNIIC, P_REWRITE, P_FILETRANSFER_KEEP];
+            let mut all = vec![P_NONVERBOSE, P_SOMEIP, P_CAN, P_MUNIIC, P_REWRITE, P_FILETRANSFER_KEEP, P_FILETRANSFER_DROP];
             k.shuffle(&mut all);
             let n = k.urange(1, all.len());
             all.truncate(n);
@@ -485,7 +547,7 @@ impl Check for C19 {
         crate::lc::lc_finding_key(v)
     }
     fn rule() -> &'static str {
-        "two kinds of runs: (plugins) simulated traffic (<= 120 messages) in which half of the messages are shaped to hit the plugins (non-verbose frames of the repository's FIBEX for ECU 'Ecu1' incl. unknown ids/short payloads/missing extended header, SOME/IP and CAN network traces with known/unknown service/frame ids and truncated headers, Muniic MMSG/MDLT, SYS/JOUR rewrite targets incl. huge timestamps) through the real plugin stage as a shuttle thread between bounded channels with a random non-empty subset and order of {non-verbose, SOME/IP, CAN, Muniic, rewrite, file transfer(keepFLDA)}; (anon) a simulated world (<= 1500 messages) with ECU/APID/CTID populations of 1-999 ids through the real anonymiser, then lifecycle detection on both traces; non-trivial = plugins active and more than one message; distinct = hash of the case"
+        "two kinds of runs: (plugins) simulated traffic (<= 120 messages) in which half of the messages are shaped to hit the plugins (non-verbose frames of the repository's FIBEX for ECU 'Ecu1' incl. unknown ids/short payloads/missing extended header, SOME/IP and CAN network traces with known/unknown service/frame ids and truncated headers, Muniic MMSG/MDLT, SYS/JOUR rewrite targets incl. huge timestamps) through the real plugin stage as a shuttle thread between bounded channels with a random non-empty subset and order of {non-verbose, SOME/IP, CAN, Muniic, rewrite, file transfer(keepFLDA), file transfer(dropping FLDA)}; traffic includes FLST/FLDA/FLFI messages and near misses, and the expected output is the input minus exactly the data packages when the dropping plugin is configured; (anon) a simulated world (<= 1500 messages) with ECU/APID/CTID populations of 1-999 ids through the real anonymiser, then lifecycle detection on both traces; non-trivial = plugins active and more than one message; distinct = hash of the case"
     }
     fn assumptions() -> Vec<&'static str> {
         vec![
@@ -500,6 +562,6 @@ impl Check for C19 {
         vec!["traffic generator", "producer/consumer threads, scheduler, channels"]
     }
     fn required_reach() -> Vec<&'static str> {
-        vec!["text_changed", "extended_header_added", "timestamp_rewritten", "traffic_someip", "traffic_can", "traffic_muniic", "large_id_population", "try_send_full"]
+        vec!["text_changed", "extended_header_added", "timestamp_rewritten", "traffic_someip", "traffic_can", "traffic_muniic", "traffic_file_transfer", "flda_packages_dropped_as_configured", "large_id_population", "try_send_full"]
     }
 }
